@@ -9,11 +9,12 @@ import MW.Spec.Bip32
 namespace MW.Model.Bip32
 open MW
 
-/-- `m` represents `x`: same serialisation data; a private key is held as ser256(k) (exactly 32 bytes,
+/-- `m` represents `x`: same serialisation data (of the sizes the 78-byte format has); a private key is held as ser256(k) (exactly 32 bytes,
     leading zeros kept; k a valid private key, 0 < k < n), a public key as serP(K) with K a point that parses. -/
 def Rep (C : CurveOps) (m : XKey) (x : Spec.Bip32.XKey C.Pt) : Prop :=
   m.version = x.version ∧ m.depth = x.depth ∧ x.depth < 256 ∧ m.parentFP = x.parentFP ∧ m.childNum = x.childNum ∧
   m.chainCode = x.chain ∧
+  (x.version.length = 4 ∧ x.parentFP.length = 4 ∧ x.childNum < 2 ^ 32 ∧ x.chain.length = 32) ∧
   match x.key with
   | .priv k => m.isPrivate = true ∧ m.key = Spec.Bip32.ser256 k ∧ 0 < k ∧ k < C.n
   | .pub K => m.isPrivate = false ∧ m.key = C.enc K ∧ C.parse (C.enc K) = some K
